@@ -18,6 +18,8 @@ CHECKS = {
          'sampled schedules at lock and (sampled) line granularity; answers parsed with the library reader', '6 (C07)'),
  'C08': ('exploration', 'seeded search over sequences of Subscribe/Renew/GetStatus/Unsubscribe requests, transactions, virtual-clock advances across expiry, wall-clock jumps, endpoint failures and shutdown; a reference liveness model driven only by what the scripted subscribers observed decides per (commit, subscription) what had to / must not arrive',
          'sampled; tolerance window around expiry; after an observed delivery failure a subscription (and those sharing its connection) is treated as uncertain; housekeeping grace 2.3 s', '6 (C08)'),
+ 'C09': ('exploration', 'seeded search over operation calls (all kinds, direct/queued, scripted handler outcomes, unknown handles, bursts) x schedules x delivery faults (report delayed past / before the response, dropped, duplicated by middleboxes); legality of the invocation-state sequence per transaction on the provider emission order, completion of the consumer Future against what was delivered',
+         'sampled; operation handlers are scripted stubs; a Future is only required to complete if its final report was delivered', '6 (C09)'),
 }
 TECH = 'deterministic simulation with fault injection (seeded scheduler + virtual clock + simulated network, fork per run, ddmin replay)'
 
